@@ -92,12 +92,13 @@ def run_case(case):
         for shp in shapes:
             for dt in (torch.float32, torch.float64):
                 for cfg in (EigenConfig(), EigenConfig(enhance_stability=True)):
-                    counters["evals"] += 1
-                    try:
-                        out = mf.matrix_inverse_root(torch.ones(shp, dtype=dt), Fraction(2), root_inv_config=cfg, epsilon=1e-3)
-                    except Exception:  # rejected with an error
-                        continue
-                    raise Violation(f"input of shape {shp} with more than one element that is not a square 2-D matrix was accepted", returned_shape=list(out.shape))
+                    for diag_flag in (False, True):  # the shape check must not depend on the fast-path flag
+                        counters["evals"] += 1
+                        try:
+                            out = mf.matrix_inverse_root(torch.ones(shp, dtype=dt), Fraction(2), root_inv_config=cfg, epsilon=1e-3, is_diagonal=diag_flag)
+                        except Exception:  # rejected with an error
+                            continue
+                        raise Violation(f"input of shape {shp} with more than one element that is not a square 2-D matrix was accepted (is_diagonal={diag_flag})", returned_shape=list(out.shape))
             sigs.add(("reject", shp))
         return {"counters": counters, "sigs": sorted(sigs)}
 
